@@ -28,15 +28,22 @@ Init == gid \in 1..Len(Results) /\ i = 1
 
 Grp == Results[gid]
 
-ParseBad(c) ==
+(* The parser may normalise what it reads; what it hands on must be a set   *)
+(* that denotes the same messages in this mailbox (and is refused alike).  *)
+WellFormed(p) == Len(p) >= 1 /\ \A k \in DOMAIN p : Len(p[k]) \in {1, 2}
+ParseBad(c, uids) ==
     IF "pst" \notin DOMAIN c THEN {}
-    ELSE IF c.pst = "OK" /\ c.parsed = c.set THEN {}
     ELSE IF c.pst = "BAD" /\ HasZero(c.set) THEN {}
-    ELSE {<<"parse", "Parsed">>}
+    ELSE IF /\ c.pst = "OK"
+            /\ WellFormed(c.parsed)
+            /\ Msgs(Grp.mode, c.parsed, uids) = Msgs(Grp.mode, c.set, uids)
+            /\ Rejected(Grp.mode, c.parsed, uids) = Rejected(Grp.mode, c.set, uids)
+         THEN {}
+    ELSE {<<"parser", "Wrong_parsed">>}
 
 CaseBad(c) ==
     LET uids == IF "uids" \in DOMAIN c THEN c.uids ELSE Grp.uids IN
-    ParseBad(c) \cup
+    ParseBad(c, uids) \cup
     UNION {{<<c.ops[k][1], w>> :
                w \in Verdict(c.ops[k][2], c.ops[k][3], c.set, uids, c.ops[k][4], c.ops[k][5])} :
            k \in DOMAIN c.ops}
